@@ -911,12 +911,14 @@ impl RefSolver {
                     txt = format!("(store {txt} {ktxt} {vtxt})");
                 }
                 let use_let = self.policy.lets && !entries.is_empty() && self.rng_print.chance(1, 2);
+                // now and then every level binds the same name again (each shadows the outer one)
+                let same_name = use_let && self.rng_print.chance(1, 4);
                 let mut let_wrap: Vec<(String, String)> = vec![];
                 for (n, (k, v)) in entries.iter().enumerate() {
                     let ktxt = self.print_scalar(Bv::new(i.width(), *k), i);
                     let vtxt = self.print_scalar(Bv::new(d.width(), *v), d);
                     if use_let && self.rng_print.chance(1, 2) {
-                        let name = format!("a!{}", n + 1);
+                        let name = if same_name { "a!1".to_string() } else { format!("a!{}", n + 1) };
                         let_wrap.push((name.clone(), txt));
                         txt = format!("(store {name} {ktxt} {vtxt})");
                     } else {
